@@ -61,6 +61,14 @@ class Wildcard(Base):
         """__str__."""
         return self.line
 
+    def __hash__(self) -> int:
+        """__hash__."""
+        return self.line.__hash__()
+
+    def __eq__(self, other) -> bool:
+        """== equality."""
+        return self.__hash__() == other.__hash__()
+
     # =========================== property ===========================
 
     @property
